@@ -196,6 +196,59 @@ pub fn output_tokens(
     Ok(out)
 }
 
+/// The attribute without `inline` / `cold`, also where a `cfg_attr` applies them (None if nothing is left of it)
+fn without_code_hints(attr: &syn::Attribute) -> Option<syn::Attribute> {
+    /// None: nothing to strip. Some(rest): what is left (if anything)
+    fn strip(meta: &syn::Meta) -> Option<Option<syn::Meta>> {
+        if meta.path().is_ident("inline") || meta.path().is_ident("cold") {
+            return Some(None);
+        }
+        let list = match meta {
+            syn::Meta::List(list) if list.path.is_ident("cfg_attr") => list,
+            _ => return None,
+        };
+        // The arguments, split at the commas: the predicate, then attributes
+        let mut arguments: Vec<TokenStream> = vec![Default::default()];
+        for token in list.tokens.clone() {
+            match &token {
+                proc_macro2::TokenTree::Punct(punct) if punct.as_char() == ',' => {
+                    arguments.push(Default::default());
+                }
+                _ => arguments.last_mut()?.extend(std::iter::once(token)),
+            }
+        }
+        let mut arguments = arguments.into_iter().filter(|tokens| !tokens.is_empty());
+        let predicate = arguments.next()?;
+        let mut stripped_any = false;
+        let kept: Vec<TokenStream> = arguments
+            .filter_map(|tokens| {
+                match syn::parse2::<syn::Meta>(tokens.clone()).ok().as_ref().and_then(strip) {
+                    None => Some(tokens),
+                    Some(rest) => {
+                        stripped_any = true;
+                        rest.map(|meta| meta.to_token_stream())
+                    }
+                }
+            })
+            .collect();
+        if !stripped_any {
+            None
+        } else if kept.is_empty() {
+            Some(None)
+        } else {
+            Some(Some(syn::parse_quote! { cfg_attr(#predicate, #(#kept),*) }))
+        }
+    }
+
+    match strip(&attr.meta) {
+        None => Some(attr.clone()),
+        Some(rest) => Some(syn::Attribute {
+            meta: rest?,
+            ..attr.clone()
+        }),
+    }
+}
+
 fn gen_impl_delegation_trait_defs(
     out_trait: &OutTrait,
     trait_dependency_mode: &TraitDependencyMode,
@@ -218,9 +271,10 @@ fn gen_impl_delegation_trait_defs(
         if trait_fn.default_body.take().is_some() {
             crate::signature::fn_params::fix_fn_param_idents(&mut trait_fn.entrait_sig.sig);
             // (hints for the code of the body are not for a method that has none)
-            trait_fn
-                .attrs
-                .retain(|attr| !attr.path().is_ident("inline") && !attr.path().is_ident("cold"));
+            trait_fn.attrs = std::mem::take(&mut trait_fn.attrs)
+                .iter()
+                .filter_map(without_code_hints)
+                .collect();
         }
     }
     // What the user's trait asks of its implementor it asks of `Impl<T>`, and the impl for `Impl<T>`
